@@ -8,6 +8,7 @@ import CookModel.Lemmas.AisleRoundtrip
 import CookModel.Lemmas.AisleLookup
 import CookModel.Lemmas.AisleComplete
 import CookModel.Lemmas.AisleSink
+import CookModel.Lemmas.AisleUtf8
 /-
   C11  Aisle configuration parsing is total, duplicate-free and round-trips.
 
@@ -255,5 +256,114 @@ example : (parse ['[','é',']','\n','b','|','c','\n']).toOption.map (fun c => (w
     (parse ['[','é',']','\n','b','|','c','\n']).toOption.map (fun c => (writeTo c ⟨100, 7, []⟩)) =
       some (⟨100, 7, [91, 195, 169, 93, 10, 98, 124]⟩, false) := by decide +kernel
 -- ===== end w7reauditB =====
+
+-- ===== w10c11utf8 =====
+
+/-- **`from_utf8(s.as_bytes()) = Ok(s)` for every text.**  `utf8Encode` / `utf8Decode` (Side/AisleUtf8.lean) are the
+    hand-written byte level: the 1–4 byte forms by range of the scalar value, and the validation table of
+    `std::str::from_utf8` (lead bytes C2..DF / E0..EF / F0..F4 with the restricted second bytes that exclude overlong
+    forms, surrogates and values above 10FFFF).  Encoding any text and decoding the bytes gives the text back. -/
+theorem C11_utf8_roundtrip (s : List Char) : utf8Decode (utf8Encode s) = some s := autf_decode_encode s
+
+/-- the hand-written encoder produces the bytes the destination theorems (`C11_write_sink`, `utf8` = core
+    `String.utf8EncodeChar` per character) speak about -/
+theorem C11_utf8_encode_eq (s : List Char) : utf8 s = utf8Encode s := autf_utf8_eq s
+
+/-- **The round trip at the byte level.**  What a caller of `aisle::write` holds are bytes; read back with
+    `str::from_utf8` they are a text (never `Utf8Error`), and `aisle::parse` of that text is the configuration that was
+    written — for every parsed configuration. -/
+theorem C11_roundtrip_bytes (t : List Char) (c : Conf) (h : parse t = .ok c) :
+    ∃ s, utf8Decode (utf8Encode (write c)) = some s ∧ parse s = .ok c :=
+  ⟨write c, C11_utf8_roundtrip _, C11_roundtrip t c h⟩
+
+/-- the same for every well-formed configuration (`WF` = the range of `parse`, `C11_range_iff_wf`) -/
+theorem C11_roundtrip_bytes_wf (c : Conf) (h : WF c) :
+    ∃ s, utf8Decode (utf8Encode (write c)) = some s ∧ parse s = .ok c :=
+  ⟨write c, C11_utf8_roundtrip _, C11_roundtrip_wf c h⟩
+
+/-- … and through every destination (`C11_roundtrip_sink`): a parsed configuration written into an empty destination with
+    room for it, accepting any number ≥ 1 of bytes per call: `Ok`, and the BYTES THE DESTINATION HOLDS decode
+    (`str::from_utf8`) to a text whose parse is the configuration. -/
+theorem C11_roundtrip_sink_bytes (t : List Char) (c : Conf) (h : parse t = .ok c) (perCall cap : Nat) (hp : 0 < perCall)
+    (hcap : (utf8 (write c)).length ≤ cap) :
+    (writeTo c ⟨perCall, cap, []⟩).2 = true ∧
+    ∃ s, utf8Decode (writeTo c ⟨perCall, cap, []⟩).1.out = some s ∧ parse s = .ok c := by
+  obtain ⟨hok, hout, hrt⟩ := C11_roundtrip_sink t c h perCall cap hp hcap
+  exact ⟨hok, write c, by rw [hout, C11_utf8_encode_eq, C11_utf8_roundtrip], hrt⟩
+
+/-- non-vacuity: all four encoded lengths (`a`, `é` U+E9, `€` U+20AC, `😀` U+1F600) and the boundary values
+    7F/80, 7FF/800, FFFF/10000, 10FFFF; the file "[é€]\n😀|c\n" through a 3-bytes-per-call destination -/
+example : utf8Encode ['a', 'é', '€', '😀'] = [0x61, 0xC3, 0xA9, 0xE2, 0x82, 0xAC, 0xF0, 0x9F, 0x98, 0x80] ∧
+    utf8Decode [0x61, 0xC3, 0xA9, 0xE2, 0x82, 0xAC, 0xF0, 0x9F, 0x98, 0x80] = some ['a', 'é', '€', '😀'] ∧
+    utf8Encode [Char.ofNat 0x7F, Char.ofNat 0x80, Char.ofNat 0x7FF, Char.ofNat 0x800, Char.ofNat 0xFFFF,
+        Char.ofNat 0x10000, Char.ofNat 0x10FFFF] =
+      [0x7F, 0xC2, 0x80, 0xDF, 0xBF, 0xE0, 0xA0, 0x80, 0xEF, 0xBF, 0xBF, 0xF0, 0x90, 0x80, 0x80, 0xF4, 0x8F, 0xBF, 0xBF] ∧
+    (parse ['[','é','€',']','\n','😀','|','c','\n']).toOption.map
+        (fun c => utf8Decode (writeTo c ⟨3, 100, []⟩).1.out) =
+      some (some ['[','é','€',']','\n','😀','|','c','\n','\n']) := by decide +kernel
+
+/-- the decoder rejects what `from_utf8` rejects: truncated forms, overlong forms (C0 80, E0 80 80, F0 80 80 80),
+    a surrogate (ED A0 80 = U+D800), a value above 10FFFF (F4 90 80 80), a stray continuation byte, F5/FF leads -/
+example : utf8Decode [0xC3] = none ∧ utf8Decode [0xE2, 0x82] = none ∧ utf8Decode [0xF0, 0x9F, 0x98] = none ∧
+    utf8Decode [0xC0, 0x80] = none ∧ utf8Decode [0xC1, 0xBF] = none ∧ utf8Decode [0xE0, 0x80, 0x80] = none ∧
+    utf8Decode [0xE0, 0x9F, 0xBF] = none ∧ utf8Decode [0xF0, 0x80, 0x80, 0x80] = none ∧
+    utf8Decode [0xF0, 0x8F, 0xBF, 0xBF] = none ∧ utf8Decode [0xED, 0xA0, 0x80] = none ∧
+    utf8Decode [0xED, 0xBF, 0xBF] = none ∧ utf8Decode [0xF4, 0x90, 0x80, 0x80] = none ∧ utf8Decode [0x80] = none ∧
+    utf8Decode [0x61, 0xBF] = none ∧ utf8Decode [0xF5, 0x80, 0x80, 0x80] = none ∧ utf8Decode [0xFF] = none ∧
+    utf8Decode [0xC3, 0x41] = none ∧ utf8Decode [0xED, 0x9F, 0xBF] = some [Char.ofNat 0xD7FF] ∧
+    utf8Decode [0xEE, 0x80, 0x80] = some [Char.ofNat 0xE000] := by decide +kernel
+
+/-- **The decoder accepts exactly the encodings.**  `from_utf8(bs) = Ok(s)` if and only if `bs` is `s.as_bytes()`: besides
+    `C11_utf8_roundtrip` (the "if"), nothing else is accepted — no overlong form, no surrogate, nothing above 10FFFF, no
+    truncated form, no stray continuation byte decodes to any text.  So the text a caller reads back from a destination is
+    determined by the bytes, and equal bytes mean equal texts. -/
+theorem C11_utf8_decode_iff (bs : List UInt8) (s : List Char) : utf8Decode bs = some s ↔ bs = utf8Encode s :=
+  autf_decode_iff bs s
+
+/-- different texts have different bytes -/
+theorem C11_utf8_encode_injective (s t : List Char) (h : utf8Encode s = utf8Encode t) : s = t := by
+  have := C11_utf8_roundtrip s
+  rw [h, C11_utf8_roundtrip] at this
+  exact (Option.some.inj this).symm
+
+/-- **Whatever bytes parse, re-written bytes parse to the same.**  Start from ANY byte string a caller has (a file read
+    from disk): if it is valid UTF-8 and its text parses to `c`, then the bytes `aisle::write` produces for `c` are valid
+    UTF-8 and their text parses to `c` again. -/
+theorem C11_roundtrip_from_bytes (bs : List UInt8) (s : List Char) (c : Conf) (hd : utf8Decode bs = some s)
+    (hp : parse s = .ok c) :
+    bs = utf8Encode s ∧ ∃ s', utf8Decode (utf8Encode (write c)) = some s' ∧ parse s' = .ok c :=
+  ⟨(C11_utf8_decode_iff bs s).mp hd, C11_roundtrip_bytes s c hp⟩
+
+/-- **Spans are offsets into the bytes.**  The model measures positions with `utf8Len` (sum of `char::len_utf8`); this is
+    the length of the encoding, and the span of an occurrence of a text (`SpanOf`, what `C11_error_faithful` gives for every
+    span of every error) cuts exactly the encoding of that text out of the input's bytes: `&input.as_bytes()[span]` is
+    `text.as_bytes()`. -/
+theorem C11_span_bytes (input : List Char) :
+    (utf8Encode input).length = utf8Len input ∧
+    ∀ sp text, SpanOf input sp text →
+      ((utf8Encode input).drop sp.start).take (sp.stop - sp.start) = utf8Encode text :=
+  ⟨autf_length_encode input, fun sp text h => autf_spanOf_bytes input sp text h⟩
+
+/-- … for the duplicate errors: both spans of the error, taken as byte ranges of the input's bytes, hold the encoded
+    duplicated name. -/
+theorem C11_duplicate_spans_bytes (s : List Char) (n : List Char) (a b : Span)
+    (h : parse s = .error (.duplicateIngredient n a b) ∨ parse s = .error (.duplicateCategory n a b)) :
+    ((utf8Encode s).drop a.start).take (a.stop - a.start) = utf8Encode n ∧
+    ((utf8Encode s).drop b.start).take (b.stop - b.start) = utf8Encode n := by
+  rcases h with h | h
+  all_goals
+    have := C11_error_faithful s _ h
+    exact ⟨(C11_span_bytes s).2 a n this.1, (C11_span_bytes s).2 b n this.2⟩
+
+/-- non-vacuity: "[a]\né€|x\nb|é€" — the duplicated name `é€` (5 bytes) is reported at bytes 4..9 and 14..19 of the
+    19-byte input, and those byte ranges are C3 A9 E2 82 AC -/
+example : parse ['[','a',']','\n','é','€','|','x','\n','b','|','é','€'] =
+      .error (.duplicateIngredient ['é','€'] ⟨4, 9⟩ ⟨14, 19⟩) ∧
+    ((utf8Encode ['[','a',']','\n','é','€','|','x','\n','b','|','é','€']).drop 14).take 5 = [0xC3, 0xA9, 0xE2, 0x82, 0xAC] ∧
+    ((utf8Encode ['[','a',']','\n','é','€','|','x','\n','b','|','é','€']).drop 4).take 5 = [0xC3, 0xA9, 0xE2, 0x82, 0xAC] ∧
+    utf8Decode [0x5B, 0xC3, 0xA9, 0x5D] = some ['[','é',']'] ∧
+    (parse ['[','é',']']).toOption.map (fun c => utf8Encode (write c)) = some [0x5B, 0xC3, 0xA9, 0x5D, 0x0A, 0x0A] := by
+  decide +kernel
+-- ===== end w10c11utf8 =====
 
 end Cook
